@@ -12,10 +12,10 @@
    [resumes_like_go_on] is the same against the run that wrote the state and went on (they coincide when
    writing the state does not change the object), [saves_what_it_loaded]: writing the state right after
    loading it reproduces it. *)
-From Coq Require Import ZArith QArith List Bool Reals Lia.
+From Coq Require Import ZArith QArith List Bool Reals Lia Permutation.
 From CV Require Import Base.Num Base.RNum C03.ResumeModel C03.ResumeProofs C06.RestraintModel C03.ObjectsModel
   C03.RestraintResume C03.RestraintMachine C03.ObjectsProofs C03.SystemProofs C03.Witness
-  C03.AbfObject C03.AbfResume C03.AbfSystem C03.MetaObject C03.MetaResume C03.FormatModel C03.FormatProofs.
+  C03.AbfObject C03.AbfResume C03.AbfSystem C03.MetaObject C03.MetaResume C03.FormatModel C03.FormatProofs C03.BlocksModel C03.BlocksProofs.
 From CV Require C05.MetaModel C04.ABFModel.
 Import ListNotations.
 Local Open Scope Z_scope.
@@ -86,6 +86,21 @@ Theorem C03_histogram_stepZeroData_refuted :
 Proof. vm_compute. split; reflexivity. Qed.
 Print Assumptions C03_histogram_stepZeroData_refuted.
 
+(* Objects without state (fixed restraints; histogramRestraint on the C06 model of its update): every carrier. *)
+Theorem C03_stateless_resumes :
+  (forall (C I Ou : Type) (f : C -> Z -> I -> Ou),
+     resumes_like_uninterrupted (stateless_machine f) (fun _ => True) eq eq eq) /\
+  (forall (T : Type) (O : NumOps T),
+     resumes_like_uninterrupted (histrestraint_machine O) (fun _ => True) eq eq eq).
+Proof.
+  assert (H : forall (C I Ou : Type) (f : C -> Z -> I -> Ou),
+             resumes_like_uninterrupted (stateless_machine f) (fun _ => True) eq eq eq).
+  { intros C I Ou f. apply resumes_uninterrupted_of_go_on; [reflexivity|].
+    exact (resumable_resumes _ _ _ _ _ _ _ (stateless_resumable f)). }
+  split; [exact H|]. intros T O. apply H.
+Qed.
+Print Assumptions C03_stateless_resumes.
+
 (* ABMD over the reals: energy, force, final reference value. *)
 Theorem C03_abmd_resumes :
   resumes_like_uninterrupted (abmd_machine Rops) (fun _ => True) eq eq a_saved_eq /\
@@ -135,6 +150,18 @@ Theorem C03_abf_with_restraints_resumes :
 Proof. intros T O. exact (abf_sys_resumes O). Qed.
 Print Assumptions C03_abf_with_restraints_resumes.
 
+(* eABF: ABF on an extended-Lagrangian variable (C04 model fed by the extended coordinate and the spring force, inside
+   the extended-Lagrangian combinator, Langevin term included), every carrier: reported extended value, spring force on
+   the atoms, ABF outputs; final x / extended_x / extended_v and samples / gradients.  (The CZAR grids are not modelled.) *)
+Theorem C03_eabf_resumes :
+  forall (T : Type) (O : NumOps T),
+    resumes_like_uninterrupted (eabf_machine O)
+      (fun c => abf_ok (snd c))
+      (xl_out_eq (@abf_out_eq0 T)) (xl_out_eq (@abf_out_eq T))
+      (fun v v' => fst v = fst v' /\ snd v = snd v').
+Proof. intros T O. exact (eabf_resumes O). Qed.
+Print Assumptions C03_eabf_resumes.
+
 (* Metadynamics (C05 model of one replica: hills, both grids, hills near the edges, keepHills, well-tempered,
    with or without grids; state = grids + geometry + the explicit hills), over the reals, grids compared bin
    by bin.  PARTIAL with respect to the property text: the resumed run is indistinguishable from the run that
@@ -172,13 +199,42 @@ Theorem C03_formats_equivalent :
   forall (T : Type),
     (forall (f : format) (fs : list (@field T)), decode f (encode f fs) = fs) /\
     (forall (O : NumOps T) (f : format) c s, r_read O f c (r_write O f c s) = m_load (restraint_machine O) c (m_save (restraint_machine O) c s)) /\
-    (forall (O : NumOps T) c s, r_read O Text c (r_write O Text c s) = r_read O Binary c (r_write O Binary c s)).
+    (forall (O : NumOps T) c s, r_read O Text c (r_write O Text c s) = r_read O Binary c (r_write O Binary c s)) /\
+    (* the fields of every modelled object survive either format: ABMD (refValue, stoppingValue, forceConstant,
+       decreasing), a variable with an extended coordinate (x, extended_x, extended_v), the module's step, a grid
+       written as the list of its values (histogram, ABF samples), the restraint's optional keywords *)
+    (forall (f : format),
+      (forall (d : T) (v : T * (T * T * bool)), a_of_fields d (decode f (encode f (a_fields v))) = v) /\
+      (forall (d : T) (v : T * T * T), x_of_fields d (decode f (encode f (x_fields v))) = v) /\
+      (forall k, m_of_fields (T:=T) (decode f (encode f (m_fields k))) = k) /\
+      (forall k vals, grid_of_fields (T:=T) k (decode f (encode f (grid_field k vals))) = Some vals) /\
+      (forall v : rsaved (T:=T), r_of_fields (decode f (encode f (r_fields v))) = v)).
 Proof.
-  intros T. split; [exact (@decode_encode T)|]. split.
-  - intros O f c s. exact (r_read_write O f c s).
-  - intros O c s. exact (r_formats_agree O c s).
+  intros T. split; [exact (@decode_encode T)|]. split; [intros O f c s; exact (r_read_write O f c s)|].
+  split; [intros O c s; exact (r_formats_agree O c s)|]. exact (@objects_read_write T).
 Qed.
 Print Assumptions C03_formats_equivalent.
+
+(* Several objects in one state file (colvarmodule::read_objects_state).  With distinct (keyword, name) pairs among
+   the objects and among the blocks: (1) the text reader is block-wise -- every object ends up as if it had read its
+   own block alone (or nothing, if the file has no block for it), whatever else the file contains; (2) the order of
+   the blocks does not matter; (3) on a file written by the same configuration the text reader and the binary reader
+   (which reads the blocks in the order of the objects) give the same objects.  So the single-object theorems above
+   apply to each object of a configuration with several variables and biases. *)
+Theorem C03_blockwise_loading :
+  forall (P S : Type) (load : nat -> P -> S -> S) (save : nat -> S -> P),
+    (forall file objs, NoDup (map okey objs) -> NoDup (map bkey file) ->
+       read_text load file objs = map (read_own load file) objs) /\
+    (forall f f' objs, NoDup (map okey objs) -> NoDup (map bkey f) -> Permutation f f' ->
+       read_text load f objs = read_text load f' objs) /\
+    (forall src objs, NoDup (map okey src) -> map okey objs = map okey src ->
+       read_text load (write_file save src) objs = read_binary load (write_file save src) objs).
+Proof.
+  intros P S load save. split; [exact (read_text_blockwise load)|]. split.
+  - exact (read_text_order_independent load).
+  - exact (read_text_binary_agree load save).
+Qed.
+Print Assumptions C03_blockwise_loading.
 
 (* With same-step total forces the total force of the re-executed step is reported again by the resumed run
    (with lagged total forces a restarted engine does not have it: it is excluded from abf_out_eq0). *)
